@@ -490,6 +490,7 @@ func init() {
 		cases := fs.String("cases", "cases.ndjson", "")
 		out := fs.String("out", "trace.ndjson", "")
 		prop := fs.String("prop", "C01", "")
+		tag := fs.String("tag", "case", "")
 		shard := fs.Int("shard", 0, "")
 		nshards := fs.Int("nshards", 1, "")
 		fs.Parse(args)
@@ -519,7 +520,7 @@ func init() {
 			if c.K != nil {
 				kk = *c.K
 			}
-			label := fmt.Sprintf("%s-case-%d", *prop, kk)
+			label := fmt.Sprintf("%s-%s-%d", *prop, *tag, kk)
 			r := rand.New(rand.NewSource(int64(kk)))
 			parseTextEvent(f, label, c.Toks, pal, r, kk%2 == 1)
 			n++
